@@ -128,6 +128,11 @@ func c16Actors() []c16Actor {
 					_ = lungo.WithSession(e.w.Ctx, sess, func(sc lungo.ISessionContext) error {
 						_, err := coll(e).InsertOne(sc, bD("_id", fmt.Sprintf("S%d", k)))
 						e.note("S.insert", err)
+						// a call that needs a write transaction of its own is refused at once while the session has one
+						// (it must not wait for the slot its own session holds)
+						if derr := e.w.C("d", fmt.Sprintf("s%d", k)).Drop(sc); derr == nil {
+							e.note("S.nested-drop-accepted", fmt.Errorf("Drop with the context of a session whose transaction is open succeeded"))
+						}
 						return nil
 					})
 					e.note("S.commit", sess.CommitTransaction(e.w.Ctx))
